@@ -201,7 +201,7 @@ class LoopCtl:
                 w = getattr(sp, "where", None)
                 if not w:
                     continue
-                cands = [n for n in self.loops if w in ast.unparse(n)]
+                cands = [n for n in self.loops if w in ast.unparse(n) or self._helper_contains(n, w)]
                 # innermost: a candidate that contains no other candidate
                 inner = [n for n in cands if not any(m is not n and any(x is m for x in ast.walk(n)) for m in cands)]
                 if len(inner) == 1:
@@ -214,6 +214,30 @@ class LoopCtl:
             sp = None  # that contract belongs to the loop its text names, wherever it is now
             k = f"{k}'"
         return k, sp
+
+    def _helper_contains(self, loop, text):
+        """the loop body hands the work to a method of the same class (`self.m(...)`) whose source contains `text`: a
+        loop body moved into a private helper is still the loop that issues that command"""
+        spec = getattr(self.con, "self_spec", None)
+        if spec is None:
+            return False
+        if not hasattr(self, "_method_src"):
+            from . import source
+
+            self._method_src = {}
+            try:
+                cnode, _m, _h = source.find_function(spec.qualname)
+                for item in cnode.body:
+                    if isinstance(item, (ast.FunctionDef, ast.AsyncFunctionDef)):
+                        self._method_src[item.name] = ast.unparse(item)
+            except KeyError:
+                pass
+        for n in ast.walk(loop):
+            if (isinstance(n, ast.Call) and isinstance(n.func, ast.Attribute) and isinstance(n.func.value, ast.Name)
+                    and n.func.value.id in ("self", "cls") and text in self._method_src.get(n.func.attr, "")
+                    and n.func.attr != getattr(self.fnode, "name", None)):
+                return True
+        return False
 
     def handle(self, I, node, env):
         k, spec = self.spec_for(node)
@@ -450,6 +474,45 @@ def _old_view(ctl):
 LoopCtl.old_view = _old_view
 
 
+def _method_write_set(cls, m, self_spec, registry, seen):
+    """Fields of self that method `m` of the live class may write (syntactic write set of its body, closed under the
+    methods of the class it calls; a contracted callee contributes its proved frame).  None = unknown (everything)."""
+    from . import source
+
+    if m in seen:
+        return set()
+    seen.add(m)
+    qn = None
+    for klass in cls.__mro__:
+        if m in klass.__dict__:
+            qn = f"{klass.__module__}.{klass.__qualname__}.{m}"
+            break
+    if qn is None:
+        con = registry.contracts.get(f"{self_spec.qualname}._command")
+        if con is None or con.modifies_ is None:
+            return None
+        return {p.split(".", 1)[1] for p in con.modifies_ if p.startswith("self.")}
+    con = registry.contracts.get(qn)
+    if con is not None:
+        if con.self_spec is None:
+            return set()
+        if con.modifies_ is None:
+            return None
+        return {p.split(".", 1)[1] for p in con.modifies_ if p.startswith("self.")}
+    try:
+        node, _mod, _h = source.find_function(qn)
+    except KeyError:
+        return None
+    _names, flds, calls = assigned_in(node.body)
+    out = set(flds)
+    for c in calls:
+        sub = _method_write_set(cls, c, self_spec, registry, seen)
+        if sub is None:
+            return None
+        out |= sub
+    return out
+
+
 def _havoc(I, ctl, node, env, spec, k):
     names, fields, self_calls = assigned_in(node.body + getattr(node, "orelse", []))
     if isinstance(node, ast.For):
@@ -474,6 +537,15 @@ def _havoc(I, ctl, node, env, spec, k):
                 # not a method of the class: resolved by __getattr__ (an NCP command, dispatched through
                 # _command) -- its frame is _command's
                 con = REGISTRY.contracts.get(f"{ctl.con.self_spec.qualname}._command")
+            if con is None and qn is not None:
+                # a helper method without a contract (it runs in place): the fields its body -- and the methods of the
+                # class it calls in turn -- can assign or mutate, computed from the live source
+                ws = _method_write_set(cls, m, ctl.con.self_spec, REGISTRY, set())
+                if ws is None:
+                    fields |= set(ctl.con.self_spec.fields)
+                else:
+                    fields |= ws
+                continue
             if con is None or con.modifies_ is None:
                 fields |= set(ctl.con.self_spec.fields)
             else:
